@@ -984,6 +984,9 @@ func VerifyFunction(ld *Loader, db *ContractDB, fn *ssa.Function, con *Contract)
 	for _, r := range con.Requires {
 		x.assumeSpec(tTrue, r.Expr, env, "requires "+r.Src)
 	}
+	if con.Hybrid {
+		x.note("quantifiers of " + x.fnKeyShort() + " are left to the solvers (E-matching on native quantifiers; only unsat answers are used); its cover checks can refute but not confirm reachability")
+	}
 	for _, an := range con.Uses {
 		ax := db.Axioms[an]
 		if ax == nil {
@@ -1978,12 +1981,25 @@ func (x *Exec) modItemHeaps(callee *ssa.Function, m *Expr, mi *modInfo) {
 					return p.Type()
 				}
 			}
+			// functions without a body (external packages): the signature names the parameters
+			if r := callee.Signature.Recv(); r != nil && (r.Name() == e.Name || e.Name == "self") {
+				return r.Type()
+			}
+			for k := 0; k < callee.Signature.Params().Len(); k++ {
+				if callee.Signature.Params().At(k).Name() == e.Name {
+					return callee.Signature.Params().At(k).Type()
+				}
+			}
 		case EField:
 			bt := baseType(e.Args[0])
 			if bt == nil {
 				return nil
 			}
-			obj, _, _ := types.LookupFieldOrMethod(bt, true, callee.Pkg.Pkg, e.Name)
+			var pk *types.Package
+			if callee.Pkg != nil {
+				pk = callee.Pkg.Pkg
+			}
+			obj, _, _ := types.LookupFieldOrMethod(bt, true, pk, e.Name)
 			if obj != nil {
 				return obj.Type()
 			}
@@ -1996,7 +2012,21 @@ func (x *Exec) modItemHeaps(callee *ssa.Function, m *Expr, mi *modInfo) {
 		if bt == nil {
 			x.fail("cannot resolve modifies item %s of %s", m, callee)
 		}
-		_, index, _ := types.LookupFieldOrMethod(bt, true, callee.Pkg.Pkg, m.Name)
+		if g, hn := x.ghostLookup(bt, m.Name); g != nil {
+			mi.heaps[hn] = ArraySort(SInt, x.ghostSort(g).sort)
+			return
+		}
+		if pt, ok := types.Unalias(bt).Underlying().(*types.Pointer); ok {
+			if g, hn := x.ghostLookup(pt.Elem(), m.Name); g != nil {
+				mi.heaps[hn] = ArraySort(SInt, x.ghostSort(g).sort)
+				return
+			}
+		}
+		var pk *types.Package
+		if callee.Pkg != nil {
+			pk = callee.Pkg.Pkg
+		}
+		_, index, _ := types.LookupFieldOrMethod(bt, true, pk, m.Name)
 		cur := bt
 		for k, i := range index {
 			p, _ := types.Unalias(cur).Underlying().(*types.Pointer)
